@@ -292,8 +292,8 @@ TIE.update({
     'tc_verify': ['C01', 'C03', 'C04', 'C10', 'C17'],
     'qcmaker_append': ['C01', 'C04', 'C06', 'C19'],
     'tcmaker_append': ['C01', 'C06', 'C10', 'C19'],
-    'add_vote': ['C01', 'C06', 'C19'],
-    'add_timeout': ['C01', 'C06', 'C10', 'C19'],
+    'add_vote': ['C01', 'C04', 'C06', 'C19'],
+    'add_timeout': ['C01', 'C04', 'C06', 'C10', 'C19'],
 })
 for _f, _ps in TIE.items():
     for _p in set(_ps) | {'C15'}:          # C15: the no-panic theorem is about every function of the node model
